@@ -56,7 +56,7 @@ Init == l = 1
 Step ==
     /\ l <= Len(Rec)
     /\ l' = l + 1
-    /\ LET v == Verdict(Rec[l]) IN IF v = "" THEN TRUE ELSE PrintT(<<"REJECT", l, v>>)
+    /\ LET v == Verdict(Rec[l]) IN IF v = "" THEN TRUE ELSE PrintT("REJECT|" \o ToString(l) \o "|" \o v)
 Next == Step
 Spec == Init /\ [][Next]_vars
 
